@@ -9,7 +9,7 @@ ap.add_argument("--checks", default=None)
 ap.add_argument("--lane", default=None, help="apply the patch to a pristine private copy of /repo's HEAD (SEED_REPO) instead of /repo itself; results replace meta['checks']")
 ap.add_argument("dirs", nargs="*")
 a = ap.parse_args()
-dirs = a.dirs or sorted(glob.glob(os.path.join(VERIF, "seeded", "*")))
+dirs = [os.path.abspath(x) for x in a.dirs] or sorted(glob.glob(os.path.join(VERIF, "seeded", "*")))
 if not a.lane and subprocess.run("git status --porcelain", shell=True, cwd="/repo", capture_output=True, text=True).stdout.strip():
     print("REFUSING: /repo not clean"); sys.exit(2)
 for d in dirs:
